@@ -43,8 +43,24 @@ def solver_positions(run, seed, stride, want_m2, tag):
     return classes
 
 
-def step(fen, pre=(), limit=None, stop=None, fresh=False, watch_ms=6000, mate=0, tag=""):
-    return {"fen": fen, "pre": list(pre), "limit": limit, "stop": stop, "fresh": fresh, "watch_ms": watch_ms, "mate": mate, "tag": tag}
+def step(fen, pre=(), limit=None, stop=None, fresh=False, watch_ms=6000, mate=0, tag="", child=None):
+    d = {"fen": fen, "pre": list(pre), "limit": limit, "stop": stop, "fresh": fresh, "watch_ms": watch_ms, "mate": mate, "tag": tag}
+    if child is not None:
+        d["child"] = child      # search the previous step's root after its child-th legal move (same table)
+    return d
+
+
+def interior_histories(rnd, positions, n_stops, n_children, limits=(1, 2, 3)):
+    """A search stopped at poll N, then - on the same table - a search of one of the root's successors (an interior
+    node of the interrupted search): whatever the abort left in the table must not leak into the next answer."""
+    hs = []
+    for f, p in positions:
+        for _ in range(n_stops):
+            n = rnd.randrange(0, 600)
+            for j in rnd.sample(range(40), n_children):
+                hs.append([step(f, p, limit=None, stop=n, tag="interrupted"),
+                           step(f, p, limit=rnd.choice(limits), child=j, tag="successor-of-interrupted")])
+    return hs
 
 
 def run_histories(run, vh, prop, histories, judged, label, nchunks=core.NPROC, profile_vh=None, pv=False):
